@@ -87,10 +87,14 @@ mon_cb(void *arg)
 	}
 	// (a SURVEYOR receive is additionally bounded by the survey deadline, 30 ms here: C07 judges that)
 	if (rv == NNG_ETIMEDOUT && M->T > 0 && M->kind != K_RECV_SURVEYOR && i < 8 && vs_now() < M->t_sub[i] + (uint64_t) M->T) {
-		// One history is a recorded finding with its own signature: the previous submission on this aio completed at or
+		// One history is a recorded finding with its own signature: an earlier submission on this aio completed at or
 		// after its own deadline, so the expire thread may already have taken that submission's cancel function; when it
 		// finally calls it, the provider finds the *re-submitted* operation pending on the same aio and times it out.
-		bool stale = i >= 1 && M->times[i - 1] >= M->t_sub[i - 1] + (uint64_t) M->T;
+		// (any earlier submission qualifies: the late cancel call hits whatever is pending on the aio when it finally runs)
+		bool stale = false;
+		for (int j = 0; j < i; j++)
+			if (M->times[j] >= M->t_sub[j] + (uint64_t) M->T)
+				stale = true;
 		mon_fail(M, stale ? "C02:stale-expiry-hits-resubmission" : "C02:early-timeout", "%s: submission #%d timed out after %llu ms with a %d ms timeout", kKindName[M->kind],
 		    i + 1, (unsigned long long) (vs_now() - M->t_sub[i]), M->T);
 	}
